@@ -30,6 +30,9 @@ pub enum Mode {
     /// E3: at the `call`-th sampler call, first iteration, the 9 base bytes
     /// encode RCDT[entry] + delta (entry 18 = 0, entry 19 = 2^72-1).
     TableAt { call: u64, entry: u8, delta: i8 },
+    /// E6: the Bernoulli bytes of the first `rounds` iterations of the `call`-th sampler call are all
+    /// 0xff (the comparison can only come out "reject"); then uniform
+    RejectRun { call: u64, rounds: u64 },
     /// E4: for the first `window` sampler calls the first base byte is 0, the
     /// sign bit is stuck at `sign` and the Bernoulli bytes are 0; then uniform.
     BiasedWindow { window: u64, sign: u8 },
@@ -43,6 +46,7 @@ impl Mode {
             Mode::TieAt { call, iter, depth, dir } => json!({"kind": "E2", "call": call, "iter": iter, "depth": depth, "dir": dir}),
             Mode::TableAt { call, entry, delta } => json!({"kind": "E3", "call": call, "entry": entry, "delta": delta}),
             Mode::BiasedWindow { window, sign } => json!({"kind": "E4", "window": window, "sign": sign}),
+            Mode::RejectRun { call, rounds } => json!({"kind": "E6", "call": call, "rounds": rounds}),
         }
     }
     pub fn from_json(v: &serde_json::Value) -> Option<Mode> {
@@ -53,6 +57,7 @@ impl Mode {
             "E2" => Mode::TieAt { call: u("call")?, iter: u("iter")?, depth: u("depth")? as u8, dir: i("dir")? as i8 },
             "E3" => Mode::TableAt { call: u("call")?, entry: u("entry")? as u8, delta: i("delta")? as i8 },
             "E4" => Mode::BiasedWindow { window: u("window")?, sign: u("sign")? as u8 },
+            "E6" => Mode::RejectRun { call: u("call")?, rounds: u("rounds")? },
             _ => return None,
         })
     }
@@ -62,6 +67,7 @@ impl Mode {
             Mode::TieAt { .. } => "E2",
             Mode::TableAt { .. } => "E3",
             Mode::BiasedWindow { .. } => "E4",
+            Mode::RejectRun { .. } => "E6",
         }
     }
 }
@@ -254,6 +260,14 @@ impl SimStream {
                     };
                     if off == 16 {
                         *self.shared.borrow_mut().landed.entry("E4").or_insert(0) += 1;
+                    }
+                }
+            }
+            Mode::RejectRun { call: c, rounds } => {
+                if call == c && iter < rounds && off >= 10 {
+                    out = 0xff;
+                    if off == 16 && iter + 1 == rounds {
+                        *self.shared.borrow_mut().landed.entry("E6").or_insert(0) += 1;
                     }
                 }
             }
